@@ -1182,6 +1182,36 @@ fn c14(idx: usize, ctx: &Ctx, rpt: &mut Report) {
     // joined root keeps the leading `.`, so such a glob does yield entries there.
     let dot_led = !rooted && idx % 11 == 3 && !expr.is_empty() && rng.chance(1, 2);
     let expr = if dot_led { format!("./{}", expr) } else { expr };
+    // Round 7 (C14-H): globs led by parent-directory components, walked from a directory inside
+    // the tree. The relative segment then begins with `..` components, which count like any other
+    // component and which the walk must neither resolve away nor leave out of the depth.
+    let dotdot_base: Option<PathBuf> = if !rooted && !dot_led && idx % 13 == 5 && !g.is_empty() && !dirs.is_empty() {
+        Some(root.join(rng.pick(&dirs)))
+    }
+    else {
+        None
+    };
+    let expr = match &dotdot_base {
+        Some(b) => {
+            let children: Vec<String> = spec
+                .nodes
+                .iter()
+                .filter(|n| n.kind == Kind::Dir && root.join(&n.rel).parent() == Some(b.as_path()))
+                .map(|n| n.rel.rsplit('/').next().unwrap().to_string())
+                .collect();
+            let pfx = match rng.below(4) {
+                0 | 1 => "..".to_string(),
+                2 if b.parent() != Some(root.as_path()) => "../..".to_string(),
+                3 if !children.is_empty() => {
+                    let c: &String = rng.pick(&children);
+                    format!("{}/..", wax::escape(c))
+                },
+                _ => "..".to_string(),
+            };
+            format!("{}/{}", pfx, g)
+        },
+        None => expr,
+    };
     ctx.begin(idx, &format!("walk {}", expr));
     let glob = match Glob::new(&expr) {
         Ok(g) => g,
@@ -1199,7 +1229,13 @@ fn c14(idx: usize, ctx: &Ctx, rpt: &mut Report) {
     }
     let mut bases = walkgen::base_spellings(&root, &cwd);
     // The empty base with the working directory inside the tree is exercised by C14 alone.
-    let base = if !rooted && idx % 11 == 3 {
+    let base = if let Some(b) = &dotdot_base {
+        walkgen::BaseSpelling {
+            label: "inside-tree(glob-led-by-parent-directory-components)",
+            path: b.clone(),
+        }
+    }
+    else if !rooted && idx % 11 == 3 {
         walkgen::BaseSpelling {
             label: "empty(cwd=tree)",
             path: PathBuf::new(),
@@ -1303,15 +1339,45 @@ fn c15(idx: usize, ctx: &Ctx, rpt: &mut Report) {
     else {
         walkgen::walk_glob(&mut rng, &spec)
     };
+    // Round 7 (C15-H): a maximum that falls exactly on the level of the glob's last component,
+    // where directories that the last component rejects (and that therefore are discarded as
+    // trees) are interleaved with matching files. Whatever enforces the maximum and whatever
+    // cancels the rejected directories must not trip over each other.
+    let at_last_component = !path_walk && idx % 7 == 3;
+    let g = if at_last_component { (*rng.pick(&["*/*.txt", "*/m*", "?*/*.*", "*.txt", "*/*/*.txt", "{*,*/*}.txt"])).to_string() } else { g };
     let expr = if prefix.is_empty() || g.is_empty() { g.clone() } else { format!("{}/{}", wax::escape(&prefix), g) };
     walkgen::steer(&mut rng, &mut spec, &g, 2);
     let prefix_len = if prefix.is_empty() || g.is_empty() { 0 } else { prefix.split('/').count() };
+    let last_level = g.split('/').count();
+    if at_last_component {
+        let mut parent = if prefix.is_empty() { String::new() } else { format!("{}/", prefix) };
+        for l in 1..last_level {
+            parent.push_str(&format!("lv{}/", l));
+        }
+        for k in 0..4 {
+            spec.plant_path(&format!("{}m{}.txt", parent, k), false);
+            spec.plant_path(&format!("{}n{}b/inner.txt", parent, k), false);
+            spec.plant_path(&format!("{}k{}d", parent, k), true);
+        }
+    }
     if prefix_len > 0 {
         // Something beneath the prefix at every depth a window could cut.
         spec.plant_path(&format!("{}/zz/zz/zz/leaf", prefix), false);
         spec.plant_path(&format!("{}/zz/side", prefix), false);
     }
-    let (depth, window, ctor) = if prefix_len > 0 && rng.chance(1, 3) {
+    let (depth, window, ctor) = if at_last_component && rng.chance(3, 4) {
+        let hi = prefix_len + last_level;
+        let lo = rng.below(2);
+        match rng.below(3) {
+            0 => (DepthBehavior::Max(wax::walk::DepthMax(hi)), (0, Some(hi)), "DepthMax(at the last component)"),
+            1 => (wax::walk::DepthMinMax::from_depths_or_max(lo, hi), (lo, Some(hi)), "DepthMinMax::from_depths_or_max(at the last component)"),
+            _ => match DepthBehavior::bounded(Some(lo), Some(hi)) {
+                Some(d) => (d, (lo, Some(hi)), "DepthBehavior::bounded(min,max)(at the last component)"),
+                None => (DepthBehavior::Max(wax::walk::DepthMax(hi)), (0, Some(hi)), "DepthMax(at the last component)"),
+            },
+        }
+    }
+    else if prefix_len > 0 && rng.chance(1, 3) {
         // Windows steered to the prefix: the bounds fall before, on and just after its length.
         let lo = rng.range(0, prefix_len);
         let hi = rng.range(prefix_len.saturating_sub(1), prefix_len + 2).max(lo);
@@ -1685,31 +1751,70 @@ fn c20(idx: usize, ctx: &Ctx, rpt: &mut Report, enumerated: usize) {
         .filter(|n| n.kind == Kind::Dir && !n.rel.contains('/') && !n.unreadable)
         .map(|n| n.rel.clone())
         .collect();
+    // Round 7 (C20-H): one more case in five walks a glob of bounded depth made of wildcards
+    // only (`*`, `*/*`, `*/?*`, `<dir>/*` ...). Such a glob matches a directory that cannot be read
+    // with its *last* component and still reads it, so the fault must be reported; directories
+    // that a component program rejects are never read and report nothing (the walk model decides
+    // which is which).
     let gwalk: Option<(String, Glob<'static>)> = if idx % 5 == 2 && !top_dirs.is_empty() {
         let d = rng.pick(&top_dirs).clone();
         Glob::new(&format!("{}/**", wax::escape(&d))).ok().map(|g| (d, g.into_owned()))
     }
+    else if idx % 5 == 4 {
+        if rng.chance(1, 3) && !top_dirs.is_empty() {
+            let d = rng.pick(&top_dirs).clone();
+            let tail = rng.pick_str(&["*", "*/*", "?*", "*/?*"]);
+            Glob::new(&format!("{}/{}", wax::escape(&d), tail)).ok().map(|g| (d, g.into_owned()))
+        }
+        else {
+            let e = rng.pick_str(&["*", "*/*", "*/?*", "?*/*/*", "*/*/*", "{*,*/*}", "<*/:1,2>*"]);
+            Glob::new(e).ok().map(|g| (String::new(), g.into_owned()))
+        }
+    }
     else {
         None
     };
+    let glob_text = gwalk.as_ref().map(|x| x.1.to_string());
     let (start, prefix_depth) = match &gwalk {
-        Some((d, _)) => (root.join(d), 1usize),
-        None => (root.clone(), 0usize),
+        Some((d, _)) if !d.is_empty() => (root.join(d), 1usize),
+        _ => (root.clone(), 0usize),
     };
     if gwalk.is_some() {
-        rpt.bucket("walk:glob-with-invariant-prefix");
+        rpt.bucket(if idx % 5 == 2 { "walk:glob-with-invariant-prefix" } else { "walk:glob-of-bounded-depth" });
     }
     let bare = match guarded(|| walkrun::run(&root, gwalk.as_ref().map(|x| &x.1), behaviour, &[])) {
         Some(o) => o,
         None => return,
     };
     let model = model_walk(&start, follow);
+    fn glob_model<'a>(x: &'a (String, Glob<'static>)) -> GlobModel<'a> {
+        GlobModel {
+            glob: &x.1,
+            components: compile_components(&x.1),
+            prefix: if x.0.is_empty() { vec![] } else { vec![x.0.clone()] },
+            rooted: false,
+        }
+    }
+    // What a glob walk without combinators reads, reports and yields (pruned directories are not
+    // read, so faults in and beneath them are not expected).
+    let bare_sim = gwalk.as_ref().map(|x| {
+        let gm = glob_model(x);
+        walksim::simulate(&model.entries, Some(&gm), &[], &root, (min_depth, None))
+    });
     rpt.evaluations += 1;
     rpt.bucket(&format!("stack-kind:{}", stack_kind));
     rpt.bucket(if follow { "link:ReadTarget" } else { "link:ReadFile" });
-    let wit = || json!({"walk": gwalk.as_ref().map(|x| format!("{}/**", x.0)), "faults": faults_desc, "behaviour": behaviour_json(&behaviour), "layers": layers.iter().map(describe_layer).collect::<Vec<_>>(), "tree": describe_tree(&spec)});
+    let wit = || json!({"walk": glob_text, "faults": faults_desc, "behaviour": behaviour_json(&behaviour), "layers": layers.iter().map(describe_layer).collect::<Vec<_>>(), "tree": describe_tree(&spec)});
     // Faults reported exactly.
-    let exp_err = multiset(model.errs().map(|e| e.path.clone()));
+    let exp_err = match &bare_sim {
+        Some(sim) => multiset(sim.errors.iter().map(|e| e.path.clone())),
+        None => multiset(model.errs().map(|e| e.path.clone())),
+    };
+    if let Some(sim) = &bare_sim {
+        if sim.errors.iter().any(|e| sim.yielded.iter().any(|y| y.path == e.path)) {
+            rpt.bucket("faults:on-a-directory-the-glob-matches");
+        }
+    }
     let got_err = err_paths(&bare.items);
     let (missing, extra) = diff(&exp_err, &got_err);
     rpt.bucket_n("error-items-observed", got_err.values().sum::<usize>() as u64);
@@ -1763,7 +1868,10 @@ fn c20(idx: usize, ctx: &Ctx, rpt: &mut Report, enumerated: usize) {
         }
     }
     // The readable part is walked completely.
-    let exp_ok = multiset(model.oks().filter(|e| e.depth + prefix_depth >= min_depth).map(|e| e.path.clone()));
+    let exp_ok = match &bare_sim {
+        Some(sim) => multiset(sim.yielded.iter().map(|e| e.path.clone())),
+        None => multiset(model.oks().filter(|e| e.depth + prefix_depth >= min_depth).map(|e| e.path.clone())),
+    };
     let got_ok = ok_paths(&bare.items);
     let (missing, extra) = diff(&exp_ok, &got_ok);
     if !missing.is_empty() || !extra.is_empty() {
@@ -1814,12 +1922,7 @@ fn c20(idx: usize, ctx: &Ctx, rpt: &mut Report, enumerated: usize) {
             return;
         }
         // Ok items: exactly those every layer keeps (no tree discards in these stacks).
-        let gm = gwalk.as_ref().map(|(d, g)| GlobModel {
-            glob: g,
-            components: compile_components(g),
-            prefix: vec![d.clone()],
-            rooted: false,
-        });
+        let gm = gwalk.as_ref().map(|x| glob_model(x));
         let sim = walksim::simulate(&model.entries, gm.as_ref(), &stack.models, &root, (min_depth, None));
         let exp = multiset(sim.yielded.iter().map(|e| e.path.clone()));
         let got = ok_paths(&filtered.items);
